@@ -939,7 +939,7 @@ func (w *world) run(sc kit.Scenario) (evs []kit.Ev, err error) {
 				return nil, fmt.Errorf("retrieve: no data chunk %d", c)
 			}
 			ev["c"] = c
-			rctx, cancel := context.WithTimeout(sctx.SetRootHash(sctx.SetTargets(context.Background(), w.nodes["A"].n.Addr.String()), w.root), 20*time.Second)
+			rctx, cancel := context.WithTimeout(sctx.SetRootHash(sctx.SetTargets(context.Background(), w.nodes["A"].n.Addr.String()), w.root), 90*time.Second)
 			_, rerr := wn.n.NS.Get(rctx, storage.ModeGetRequest, w.data[c-1])
 			cancel()
 			ev["err"] = rerr != nil
